@@ -360,6 +360,8 @@ def finish(prop, tier, seed, gate, cases, stats, nontrivial, violations, known_l
                evaluations=len(cases), distinct_nontrivial=len(nontrivial), rule=rule, samples=samples,
                traces_validated_against_impl=len(cases) - stats.get('unsupported', 0), stats=stats,
                proof_gate_failures=gate['failures'])
+    if gate.get('coqchk'):
+        cov['coqchk'] = gate['coqchk']
     if extra:
         cov.update(extra)
     return out, cov, len(violations) + (0 if gate['ok'] else 1)
